@@ -200,6 +200,10 @@ class TorchCalls(TorchOps):
             return self.make_dict(args, kwargs, node, ordered=True)
         if name == "collections.OrderedDict.fromkeys":
             return self.dict_fromkeys(args, node)
+        if name == "collections.Counter" and len(args) == 1 and not kwargs:
+            # Counter(iterable): the multiset of the elements — kept as the list it was built from; len() counts the distinct elements, total() all of them
+            lst = self.to_list(args[0], "list", node)
+            return replace(lst, kind="counter") if isinstance(lst, ListV) else self.unk("Counter of a non-sequence", node)
         if name == "collections.deque":
             return args[0] if args else ListV(items=())
         if name == "qpsolvers.solve_qp":
@@ -239,7 +243,7 @@ class TorchCalls(TorchOps):
             if isinstance(lst, ListV) and lst.items is not None:
                 return ListV(items=tuple(ListV(items=(Const(i), x), kind="tuple") for i, x in enumerate(lst.items)))
             if isinstance(lst, ListV):
-                idx = TV(kind="pyint", idx_of=lst.over, note="enumerate-index", origin=frozenset(["loop-index"]),
+                idx = TV(kind="pyint", idx_of=lst.over, note="enumerate-index" if len(args) == 1 and not kwargs else "enumerate-index+start", origin=frozenset(["loop-index"]),
                          layout=(("enum", lst.order),) if lst.order is not None else ())
                 out = replace(lst, elem=ListV(items=(idx, lst.elem), kind="tuple"), head=None, tail=(), tail_elem=None)
                 pt = lst.parts()
@@ -478,6 +482,8 @@ class TorchCalls(TorchOps):
     def to_list(self, v, kind, node):
         if isinstance(v, ListV) and v.it is not None:
             v = self.consume(v, node)
+        if isinstance(v, ListV) and v.kind == "counter":
+            return self.unk("iteration over a Counter", node)
         if isinstance(v, ListV):
             return replace(v, kind=kind)
         if isinstance(v, SetV):
